@@ -170,6 +170,47 @@ def c06c(ctx, tu):
                inst=fn.q, detail="" if ok else "retire_predecessors must visit every sequence of the expectation")
 
 
+def c05d5(ctx, tu):
+    """an out-of-order step is reported once per violated sequence: the handler's validate() hands the question to the
+    handle of EVERY sequence the expectation names (each handle decides for its own sequence whether it is first in
+    line) - whatever the handle's cost, and without stopping after the first"""
+    from rules.common import LoopModel, iter_calls
+    VM = "trompeloeil::sequence_matcher::validate_match"
+    for fn in tu.find("trompeloeil::sequence_matchers::validate"):
+        if fn.rec["clsq"].endswith("<0>"):
+            continue
+        l = loop_of(fn, VM)
+        if l is not None and not any(e["e"] == "call" and qe(e) == VM for b, e in fn.events()):
+            l = None          # some loop, but the handles are asked elsewhere (a visitor, a helper): not modelled
+        if l is None:
+            ctx.ob("C05.d.5", "trompeloeil::sequence_matchers::validate", None, pattern=fn.pat, unit=tu.name, inst=fn.q,
+                   detail="the walk over the expectation's sequences is not a loop this rule recognises")
+            continue
+        try:
+            lm = LoopModel(fn, l)
+            why = None
+            for cost in (0, 1, (1 << 32) - 1):
+                seen = []
+
+                def vm(t, it, seen=seen):
+                    seen.append(1)
+                    return None
+                o = Oracle(calls=iter_calls("elem", {VM: vm, "trompeloeil::sequence_matcher::cost": cost}),
+                           any_member=True, any_param=True, any_call=True)
+                res, it = lm.step(o, at="elem")
+                if (res != ("stop", lm.entry) or len(seen) != 1) and why is None:
+                    why = "for a sequence in which the expectation has cost %s the step %s and asks the handle %d time(s)" % (
+                        "all-ones" if cost > 2 else cost, "goes on" if res[0] == "stop" else "ends the walk (%s)" % res[0], len(seen))
+            if why is None and l["exit_edges"]:
+                why = "the walk can be left before every sequence was asked"
+            ctx.ob("C05.d.5", "trompeloeil::sequence_matchers::validate", why is None, pattern=fn.pat, unit=tu.name, inst=fn.q,
+                   detail="" if why is None else "every named sequence must be validated (one report per violated "
+                   "sequence): " + why)
+        except Unknown as u:
+            ctx.ob("C05.d.5", "trompeloeil::sequence_matchers::validate", None, pattern=fn.pat, unit=tu.name, inst=fn.q,
+                   detail="cannot interpret: %s" % u)
+
+
 def run(ctx):
     ctx.explanation = (
         "C06.a decision table of one iteration of is_completed (pending expectation satisfied / not) plus the "
